@@ -239,6 +239,51 @@ static void staged_beyond_limit_prog()
     pmc_outcome("workers=%d", workers);
 }
 
+// more busy-waiting tasks than workers: P pika::threads created by a task; each announces itself and then polls with
+// pika's own back-off (yield_while: pause, boosted yields, plain yields - what barrier::wait and the spinlocks do) until
+// all P have announced themselves.  Every one of them must be entered ("this holds while tasks yield").
+#include <pika/execution_base/this_thread.hpp>
+static void on_stuck_pollers()
+{
+    char b[200];
+    int n = 0;
+    for (int i = 0; i < 4; ++i) n += snprintf(b + n, sizeof b - n, " t%d:%d/%d", i, g->entered[i], g->left[i]);
+    pmc_fail("task-starved", "a created pika::thread is never entered while the tasks that wait for it poll with yield_while (entered/left:%s)", b);
+}
+template <int P, int W>
+static void yield_pollers_prog()
+{
+    static Ledger L;
+    L = Ledger{};
+    g = &L;
+    pmc_on_stuck(on_stuck_pollers);
+    rt::config c;
+    c.workers = W;
+    rt::start(c);
+    static std::atomic<int> announced;
+    announced = 0;
+    g->spawned = P;
+    static int creator_done;
+    creator_done = 0;
+    rt::spawn([&] {
+        std::vector<pika::thread> ts;
+        for (int p = 0; p < P; ++p)
+            ts.emplace_back([p] {
+                ++g->entered[p];
+                ++announced;
+                pika::util::yield_while([] { return announced.load() < P; }, "yield_pollers");
+                ++g->left[p];
+            });
+        for (auto& t : ts) t.join();
+        creator_done = 1;
+    });
+    rt::stop();
+    int n = 0;
+    for (int p = 0; p < P; ++p) n += g->entered[p] == 1 && g->left[p] == 1;
+    PMC_ASSERT(n == P && creator_done, "task-dropped", "%d of %d polling tasks were entered once and ran to completion", n, P);
+    pmc_outcome("ok");
+}
+
 int main(int argc, char** argv)
 {
     static const char* sites = "thread_data::(set_state_tagged|restore_state|set_state)|thread_queue|scheduling_loop|queue_holder|set_thread_state|set_active_state|create_work|create_thread";
@@ -247,6 +292,7 @@ int main(int argc, char** argv)
     static const char* nfocus = "F-addr: state word of every task; F-site (rmw, cas): thread_data state transitions, set_thread_state/set_active_state, scheduling_loop (switch_status, queue hand-off)";
     static const pmc_spec specs[] = {
         // quick tier: narrow focus, every policy at bound 1, default policy at bound 2
+        {"yield_pollers_4_w2", yield_pollers_prog<4, 2>, 0, 0, 0.02, 0.02, 0, "4 pika::threads created by a task on 2 workers, all polling with yield_while until all have been entered (default schedule only: bound 0)", nullptr, nullptr},
         {"staged_beyond_limit", staged_beyond_limit_prog, 0, 1, 0.04, 0.03, 1, nfocus, nsites, "rc"},
         {"two_resumers", two_resumers_prog, 1, 2, 0.08, 0.05, 1, nfocus, nsites, "rc"},
         {"recycled_after_interrupt", recycled_prog, 1, 2, 0.06, 0.04, 1, nfocus, nsites, "rc"},
